@@ -152,6 +152,7 @@ def c10(A, ctx, tier):
     misc.r_sibguard(A, ctx, dict(floor=8))
     kernels.r_kernel_eq(A, ctx, dict(floor=40))
     kernels.r_csc_helpers(A, ctx, dict(floor=16))
+    kernels.r_accessor_eq(A, ctx, dict(floor=20))
     ctx.assume("equality 'up to solver tolerance' of converged results is numerical and not decided; "
                "kernel equality is decided on one 3x3 design with structural zeros (symbolic entries), "
                "one epoch, not for every sparsity pattern")
@@ -207,6 +208,7 @@ def c06(A, ctx, tier):
     cox.r_cox(A, ctx, {}, parts=("grad", "adj", "risk"))
     kernels.r_kernel_eq(A, ctx, dict(floor=12), rule="R-GRAD-EQ",
                         select=lambda f: "construct_grad" in f.name)
+    kernels.r_accessor_eq(A, ctx, dict(floor=20))
     ctx.assume("Cox: the outer composition (gradient == gradient_sparse == X.T @ raw_grad) is decided "
                "for all shapes with the risk-set recursions as opaque operators; the recursions "
                "themselves are decided on six fixed tie / censoring patterns of 3-5 observations "
@@ -278,6 +280,7 @@ def c09(A, ctx, tier):
     cox.r_cox(A, ctx, {}, rule_prefix="R-COX", parts=("hess",))
     misc.r_powerstart(A, ctx, {})
     kernels.r_csc_helpers(A, ctx, dict(floor=16))
+    kernels.r_accessor_eq(A, ctx, dict(floor=12), rule="R-LIPSCHITZ-EQ", select=lambda m: "lipschitz" in m)
     ctx.assume("accuracy of the power method in spectral_norm is numerical and not decided; "
                "spectral norms are opaque atoms keyed by the matrix they are taken of")
     return dict(explanation="coordinate / group / global Lipschitz constants are lifted and "
